@@ -336,6 +336,42 @@ def rule_round(prog: Program, modules: Set[str]) -> List[Instance]:
                 ok = down
             else:
                 ok = not down
+            # a COUNT taken as ceil(float quotient): a quotient that is integral in exact arithmetic comes out
+            # n + 1ulp for many operand pairs (100 / (100 / 29) == 29.000000000000004) and the ceiling adds a whole
+            # pixel. The repository's idiom is ceil(maybe_int(q, tol)); integer/integer quotients are exact when
+            # divisible and need no snap; an explicit margin term (x - k*res) is the other accepted form.
+            if ok and role == "COUNT" and s.kind == "ceil" and isinstance(s.node, ast.Call) and s.node.args:
+                a0 = s.node.args[0]
+                divs = [x for x in ast.walk(a0) if isinstance(x, ast.BinOp) and isinstance(x.op, ast.Div)]
+                if divs:
+                    snapped = any(isinstance(x, ast.Call) and call_name(x) in ("maybe_int", "round") for x in ast.walk(a0))
+                    pann = {p_.arg: (ast.unparse(p_.annotation) if p_.annotation is not None else "") for f_ in [fi] + ([fi.parent] if fi.parent else []) for p_ in f_.params()}
+
+                    # names iterating over pixel shapes (Shape2d components are ints by type)
+                    shape_iter: Set[str] = set()
+                    for c_ in ast.walk(fi.node):
+                        if isinstance(c_, (ast.comprehension, ast.For)):
+                            srcs = c_.iter.args if isinstance(c_.iter, ast.Call) and call_name(c_.iter) == "zip" else [c_.iter]
+                            tgts = c_.target.elts if isinstance(c_.target, (ast.Tuple, ast.List)) and len(getattr(c_.target, "elts", [])) == len(srcs) else [c_.target]
+                            for t_, sx_ in zip(tgts, srcs):
+                                if isinstance(t_, ast.Name) and isinstance(sx_, ast.Attribute) and sx_.attr in ("yx", "xy", "shape", "_shape", "wh") and ("shape" in short(sx_).lower()):
+                                    shape_iter.add(t_.id)
+
+                    def _is_int(e: ast.AST) -> bool:
+                        if isinstance(e, ast.Name) and e.id in shape_iter:
+                            return True
+                        if isinstance(e, ast.Call) and call_name(e) in ("float", "int") and e.args:
+                            return _is_int(e.args[0])
+                        if isinstance(e, ast.Constant):
+                            return isinstance(e.value, int)
+                        return isinstance(e, ast.Name) and pann.get(e.id, "") == "int"
+
+                    exact = all(_is_int(d.left) and _is_int(d.right) for d in divs)
+                    margin = isinstance(a0, ast.BinOp) and any(isinstance(x, ast.BinOp) and isinstance(x.op, (ast.Sub, ast.Add)) and any(isinstance(c, ast.BinOp) and isinstance(c.op, ast.Mult) and const_num(c.left) is not None for c in (x.left, x.right)) for x in ast.walk(a0))
+                    if not (snapped or exact or margin):
+                        out.append(Instance("R-ROUND", cid, BAD,
+                                            f"`{short(s.node, 60)}` takes the ceiling of a raw float quotient for a {role} ({how}): where the quotient is a whole number in exact arithmetic it is often n + 1ulp in floats and the count comes out one too many (use ceil(maybe_int(q, tol)))", where))
+                        continue
             if ok:
                 out.append(Instance("R-ROUND", cid, OK, f"{role} ({how}) rounds {'down' if down else 'up'}: `{short(s.node, 50)}`", where))
             else:
